@@ -32,12 +32,31 @@ which other columns/options/partition counts happened to be in the random case.
 
 Calibration (false alarms corrected)
 * DataFrame.value_counts does not exist in dask and the statement's value_counts is the Series one: Series only.
-* unordered categorical under order based reductions (min/max/idxmin/idxmax): pandas refuses min/max but
+* unordered categorical under order based reductions (min/max/idxmin/idxmax/nlargest): pandas refuses min/max but
   happens to answer idxmin/idxmax through the codes; the reduction is not defined there -> not generated.
-* missing scalars: pandas answers NA for nullable columns where dask answers NaN; both are "missing" (same rule
-  as frames.compare for scalars) -> equal.
-* frames.compare files every pandas message containing "[index]:" under `index`; re-classified as `values`.
-* options outside the statement's list (min_periods, dropna, normalize, sort/ascending) are not generated.
+* row-wise (axis=1) reductions only over int/float/bool/nullable columns: pandas answers mixed str/datetime/
+  categorical rows through object coercion and refuses the same program on an empty partition of the same schema.
+* empty frame: pandas accepts on an empty frame programs it refuses on data (nothing is evaluated); an empty-frame
+  case is rejected unless pandas also answers for a non-empty frame of the same schema.
+* missing markers: NaN / None / NA / NaT are all "missing" in the values facet (scalars and elements of object /
+  nullable results); the dtype facet still reports float64 vs Float64 on non-empty frames.
+* Timedelta results (std of datetime) are computed through float64: compared with rounding tolerance (they
+  differed by 1 microsecond).
+* values facet first, dtype facet second: symptom `dtype` means "values equal, dtype differs".
+* frames.compare files every pandas message containing "[index]:" under `index`; re-classified as `values`;
+  values mismatches are refined to `spurious-NA` / `lost-NA` / `values` so that the label ablation cannot drift
+  from one mechanism into another that merely has the same coarse symptom.
+* options outside the statement's list (min_periods, dropna, normalize, sort/ascending, keep) are not generated
+  (Cov ignores min_periods > 2: seen during calibration, outside the stated domain).
+* frames hold plain columns plus at most one column of a special class (or a wide subset under
+  numeric_only=True): every class is covered without multiplying labels by their cross products.
+
+Genuine defects (PENDING, findings_proposed/C37.md): the suspected DESIGN §6 #18 defects were reproduced
+(`min/max:skipna=False&empty-partition:spurious-NA`, `var:skipna=False&split_every-tree&empty-partition:spurious-NA`,
+`idxmin/idxmax:all-NA-partition:ValueError@...`), plus wrong values of min/max(skipna=False) over mixed-kind frames,
+alphabetically sorted idxmin/idxmax results, unsorted value_counts, and many failures on nullable / datetime columns.
+Several PENDING labels share a root cause (R1..R9 in the findings file): the same defect reached through a
+different trigger (empty partition vs. all-NA partition vs. plain second partition, series vs. frame path).
 """
 from __future__ import annotations
 
@@ -53,8 +72,14 @@ RULE = ("cases = (frame seed/rows/index kind, partitioning description, operatio
         "non-trivial = at least 2 partitions and 2 rows; distinct = distinct description.")
 ASSUMPTIONS = ["pandas 3.0.5 on the concatenated frame defines the expected value", "sync scheduler",
                "python-backed str dtype (pyarrow import stub); Arrow strings are not exercised"]
-BUDGET = {"quick": 90, "thorough": 560}
-FLOORS = {"quick": {"evaluations": 10, "distinct_nontrivial": 5}, "thorough": {"evaluations": 10, "distinct_nontrivial": 5}}
+BUDGET = {"quick": 45, "thorough": 420}
+FLOORS = {
+    "quick": {"evaluations": 2900, "distinct_nontrivial": 2400, "max_skipped_fraction": 0.3,
+              "counters": {"compared": 2700, "dtype_facet_checked": 2700, "empty_part": 750, "allna_part": 900,
+                           "single_row_part": 1400, "skipna_false": 650, "tree": 1500, "axis1": 130},
+              "sets": {"op_options": 480, "partition_shapes": 600}},
+    "thorough": {"evaluations": 10, "distinct_nontrivial": 5},
+}
 EXHAUSTIVE_SPACE = {
     "quick": ("fixed 6-row frame: all 32 compositions into non-empty consecutive partitions + all weak compositions "
               "(empty partitions anywhere) into <=3 partitions (52 partitionings) x 22 operations x skipna in {True, False} "
